@@ -200,6 +200,7 @@ def confirm(path, timeout=300):
     return "error", (r.stdout + r.stderr)[-2000:]
 
 
+MAX_KNOWN_REPLAYS = 8   # replays per recorded finding and run
 MAX_CONFIRMED = 40      # replays are sequential fresh interpreters: stop confirming after this many violations
 
 
@@ -270,6 +271,14 @@ def run_property(prop, jobs, tier, seed, meta, workers=None, level="model_checki
             seen.setdefault(key, []).append((i, c))
         for key, lst in seen.items():
             status, rep_path, log = "not_reproduced", None, ""
+            kpre = match_known(known, prop, r["name"], key[0], key[1]) if not is_twin else None
+            if kpre is not None and len(known_hits.get(kpre.get("what", "?"), [])) >= MAX_KNOWN_REPLAYS:
+                # this recorded finding has been reproduced several times in this run already: further fingerprints that match
+                # its pattern are listed under it without another replay
+                known_hits[kpre.get("what", "?")].append(dict(job=r["name"], label=key[0], cls=key[1], n=len(lst), status="matched, not replayed",
+                                                              replay=None))
+                tot["cex"] += len(lst)
+                continue
             if len(violations) >= MAX_CONFIRMED and not is_twin:
                 # enough replay-confirmed violations to report; the remaining candidates are listed, not replayed
                 skipped.append(dict(job=r["name"], label=key[0], cls=key[1], n=len(lst)))
